@@ -215,7 +215,7 @@ void Executor::run_task(int task) {
       // wait (yielding) for an object created by another task
       if (!op.obj.empty() && op.name != "new" && op.name != "load") {
         int spins = 0;
-        while (!obj(op.obj) && spins < 100000) {
+        while (!obj(op.obj) && spins < 200000000) {   // a producer inside a very long solve yields hundreds of thousands of times
           Sched* s = scheduler();
           bool others = s && (s->alive_mask & ~(1 << task));
           if (!others) break;
